@@ -85,6 +85,10 @@ def check_table(case, part):
     n = len(m)
     try:
         s = T.to_impl(m, numeric_t_ref=bool(case.get("numeric_t_ref")))
+        if case.get("p_f32"):
+            # mixed precision: the period column is stored in single precision (values exactly representable), the others in double
+            s["P"] = u.Quantity(np.asarray(s["P"].value, dtype=np.float32), s["P"].unit, dtype=np.float32)
+            assert s["P"].dtype == np.float32 and np.array_equal(np.asarray(s["P"].value, dtype=float), m.cols["P"][0])
     except Exception as e:
         part.violation(case, f"building the table raised {type(e).__name__}: {e}")
         return
@@ -261,7 +265,9 @@ def check_table(case, part):
             return
         mm = m.copy()
         mm.cols = {k: (np.atleast_1d(fn(v)), un) for k, (v, un) in m.cols.items()}
-        d = T.diff(T.from_impl(r), mm, rtol=1e-12, atol=1e-12)
+        # (statistics of a single-precision column are computed in single precision)
+        tol = 1e-6 if case.get("p_f32") else 1e-12
+        d = T.diff(T.from_impl(r), mm, rtol=tol, atol=tol)
         if d:
             part.violation(case, f"{name}(): " + d)
             return
@@ -426,6 +432,11 @@ def build_cases(quick, seed):
             Ks = [KS[i % 4] for i in range(n)]
             cases.append(dict(kind="table", K=Ks, om0=n % 6, aunit="rad" if n % 2 else "deg", kunit="km / s", punit="d", t_ref=tr, poly_trend=pt,
                               n_offsets=no, jit=jit, colorder="canon" if n % 2 else "rot"))
+    # mixed-precision tables (period column float32, everything else float64)
+    for n in (2, 3, 4):
+        for (tr, pt, no) in ((True, 1, 0), (True, 2, 1)):
+            cases.append(dict(kind="table", K=[KS[i % 4] for i in range(n)], om0=n % 6, aunit="deg" if n % 2 else "rad", kunit="km / s", punit="d", t_ref=tr,
+                              poly_trend=pt, n_offsets=no, jit=0.0, colorder="canon", p_f32=True))
     # tables with tied periods (median_period must still be ONE member row; per-row operations must not merge equal-P rows)
     for n, perm in ((2, None), (3, None), (4, None), (4, [0, 2, 1, 3]), (5, [4, 0, 2, 1, 3]), (6, None)):
         for (tr, pt, no) in ((True, 1, 0), (True, 2, 1)):
